@@ -1,11 +1,16 @@
 package wring
 
 import (
+	"context"
+	"time"
+
+	"github.com/grafana/dskit/ring"
+	"github.com/grafana/dskit/services"
 	"github.com/grafana/dskit/zzverif/sim"
 )
 
 func init() {
-	sim.Register("C08", "lifecycle", 1, func(s *sim.Sim) {
+	sim.Register("C08", "lifecycle", 3, func(s *sim.Sim) {
 		w := runLifecycle(s, lifecycleOpts{kinds: []lcKind{kindClassic, kindBasic}, maxActors: 5, zones: []string{"", "a", "b"}, faults: true, ghosts: s.Chance(0.5, "ghosts")})
 		if len(w.actors) >= 2 && s.Probes["cas-retried"] > 0 {
 			s.Nontrivial = true
@@ -22,4 +27,114 @@ func fmtStates(w *world) string {
 		out += id + "=" + d.Ingesters[id].State.String() + " "
 	}
 	return out
+}
+
+func init() {
+	sim.Register("C08", "restart-entry-forgotten", 1, runRestartEntryForgotten)
+}
+
+// runRestartEntryForgotten (directed): an instance that left its entry behind (LEAVING) restarts; while the
+// first write of the restart is between its read and its write the operator forgets the entry; before the
+// instance joins by itself a client switches it to ACTIVE. It must not report ready while its ring entry holds
+// no tokens, and whatever it publishes afterwards must follow the usual rules (commit oracle).
+func runRestartEntryForgotten(s *sim.Sim) {
+	w := newWorld(s)
+	w.faultsOn = true
+	v := w.addActor(0, []lcKind{kindClassic}, []string{"", "a"})
+	v.heartbeat = 5 * time.Second
+	v.joinAfter = 7 * time.Second
+	v.observe = 0
+	v.unregister = false
+	v.tokensPath = ""
+	v.autoForget = 0
+	v.readinessHealth = s.Chance(0.3, "readiness-ring-health")
+	for i, nb := 1, s.Choose(2, "bystanders"); i <= nb; i++ {
+		b := w.addActor(i, []lcKind{kindClassic, kindBasic}, []string{"", "a"})
+		b.autoForget, b.tokensPath = 0, ""
+		if b.heartbeat == 0 {
+			b.heartbeat = 5 * time.Second
+		}
+	}
+	for _, a := range w.actors {
+		w.build(a)
+	}
+	s.OnEnd(func() {
+		for _, a := range w.actors {
+			if a.started && !a.crashed {
+				a.svc.StopAsync()
+			}
+		}
+	})
+	for _, a := range w.actors {
+		w.start(a)
+	}
+	entry := func() (ring.InstanceDesc, bool) {
+		e, ok := w.desc().Ingesters[v.id]
+		return e, ok
+	}
+	active := func() bool { e, ok := entry(); return ok && e.State == ring.ACTIVE && len(e.Tokens) >= v.numTokens }
+	if !w.drive("join", active, 3*time.Minute, nil) {
+		return
+	}
+	if s.Chance(0.5, "tokens-claimed-away") {
+		// the entry left behind has no tokens any more: the restart tops it up
+		v.tokensTaken = true
+		_ = w.opKV.CAS(context.Background(), ringKey, func(in interface{}) (interface{}, bool, error) {
+			d := ring.GetOrCreateRingDesc(in)
+			e := d.Ingesters[v.id]
+			e.Tokens = nil
+			d.Ingesters[v.id] = e
+			return d, true, nil
+		})
+		s.Wait()
+	}
+	v.stopAsked = true
+	v.svc.StopAsync()
+	w.drive("leave", func() bool { st := v.svc.State(); return st == services.Terminated || st == services.Failed }, 3*time.Minute, nil)
+	if e, ok := entry(); !ok || e.State != ring.LEAVING {
+		return
+	}
+	w.build(v)
+	w.markInherited(v)
+	w.start(v)
+	w.drive("restart", func() bool { return s.IsParked(v.id + ":f") }, 10*time.Second, nil)
+	if !s.IsParked(v.id + ":f") {
+		return
+	}
+	s.Fault("operator-forget")
+	v.lastTS = 0
+	_ = w.opKV.CAS(context.Background(), ringKey, func(in interface{}) (interface{}, bool, error) {
+		d := ring.GetOrCreateRingDesc(in)
+		d.RemoveIngester(v.id)
+		return d, true, nil
+	})
+	s.Probe("forgotten-during-restart")
+	// the retry registers the instance afresh
+	w.drive("re-register", func() bool { _, ok := entry(); return ok }, 5*time.Second, nil)
+	e, ok := entry()
+	if !ok || len(e.Tokens) > 0 {
+		return
+	}
+	lc := v.classic
+	v.requestedStates[ring.ACTIVE] = true
+	v.handover = true // legal but unusual: ACTIVE requested from outside before the instance picked tokens
+	done := false
+	s.Go("client-force-active", func() {
+		_ = lc.ChangeState(context.Background(), ring.ACTIVE)
+		done = true
+	})
+	w.drive("force", func() bool { return done }, 5*time.Second, nil)
+	e, ok = entry()
+	if ok && e.State == ring.ACTIVE && len(e.Tokens) == 0 {
+		s.Probe("active-without-tokens-in-the-ring")
+		var err error
+		w.try("CheckReady", func() { err = lc.CheckReady(context.Background()) })
+		if err == nil {
+			s.Fail("ready-without-tokens", "", "%s reports ready but its ring entry is %s (restart whose first write lost the race against an operator forgetting the old entry)", v.id, fmtInst(e, ok))
+		}
+		s.Nontrivial = true
+	}
+	w.drive("after", func() bool { return false }, 20*time.Second, nil)
+	s.Note("restart-entry-forgotten final=%s", fmtDesc(w.desc()))
+	s.State("restart-entry-forgotten", fmtStates(w))
 }
